@@ -80,6 +80,47 @@ let str_outcome = function
 
 let str_shallow = function ShRej -> "REJ" | ShAcc -> "ACC" | ShRun -> "RUN"
 
+
+(* ---- HeightVoteSet / fetcher rendering (same format as the harness) *)
+let ints_of_tok t : z list =
+  (* "[1,2,3]" or "-" *)
+  if t = "-" || t = "[]" then []
+  else
+    let t = if String.length t >= 2 && t.[0] = '[' then String.sub t 1 (String.length t - 2) else t in
+    if t = "" then [] else List.map z (String.split_on_char ',' t)
+
+let zcmp a b = Zt.ZA.compare (zt_of_z a) (zt_of_z b)
+let str_rounds (l : z list) =
+  match List.sort_uniq zcmp l with
+  | [] -> "-"
+  | l -> String.concat "," (List.map string_of_z l)
+
+let str_zs (l : z list) = "[" ^ String.concat "," (List.map string_of_z (List.sort zcmp l)) ^ "]"
+let str_zl (l : z list) = "[" ^ String.concat "," (List.map string_of_z l) ^ "]"
+let str_map (f : 'a -> string) (m : (z * 'a) list) =
+  match List.sort (fun (a, _) (b, _) -> zcmp a b) m with
+  | [] -> "-"
+  | m -> String.concat ";" (List.map (fun (k, v) -> string_of_z k ^ ":" ^ f v) m)
+
+let compress s =
+  if String.length s <= 1500 then s
+  else begin
+    let acc = ref 7 in
+    String.iter (fun c -> acc := (!acc * 131 + Char.code c) mod 2147483647) s;
+    Printf.sprintf "H%d:%d" (String.length s) !acc
+  end
+
+let str_fetcher (s : fetcher) =
+  let tm = List.sort zcmp (List.concat_map (function Some d -> [d] | None -> []) [s.f_wait_timer; s.f_timeout_timer]) in
+  compress (Printf.sprintf "now=%s W=%s T=%s S=%s A=%s D=%s F=%s R=%s L=%s U=%s tm=%s"
+    (string_of_z s.f_now) (str_map str_zs s.f_waitlist) (str_map string_of_z s.f_waittime) (str_map str_zs s.f_waitslots)
+    (str_map str_zs s.f_announces) (str_map str_zs s.f_announced) (str_map string_of_z s.f_fetching)
+    (str_map (fun r -> str_zl r.rq_hashes ^ "/" ^ str_zs r.rq_stolen ^ "/" ^ string_of_z r.rq_time) s.f_requests)
+    (str_map str_zs s.f_alternates) (str_zs s.f_under)
+    (match tm with [] -> "-" | l -> String.concat "," (List.map string_of_z l)))
+
+let str_hvclass = function HVVoteSet -> "VS" | HVErrType -> "ERRTYPE" | HVUnwanted -> "UNWANTED"
+
 type pending =
   | NoPending
   | PVote of pRS * voteset * bitArray option
@@ -88,6 +129,11 @@ type pending =
 let () =
   let st : pRS option ref = ref (Some prs0) in
   let pend = ref NoPending in
+  let hvs : hVS ref = ref hvs_new in
+  let node : nodehv option ref = ref None in
+  let node_bad = ref false in
+  let fet : fetcher ref = ref f0 in
+  let fet_dead = ref false in
   let lines = read_lines stdin in
   List.iter (fun line ->
       let toks = tokens line in
@@ -95,6 +141,7 @@ let () =
       | [] -> ()
       | "CASE" :: n :: _ ->
         st := Some prs0; pend := NoPending;
+        hvs := hvs_new; node := None; node_bad := false; fet := f0; fet_dead := false;
         print_endline ("CASE " ^ n)
       | ["NEWPEER"] -> st := Some prs0
       | "L" :: _ -> print_endline "LIVE"
@@ -118,6 +165,12 @@ let () =
         let cur = if has_ps then !st else None in
         let (o, s') = handle e (zi (int_of_string ("0x" ^ ch))) (wire_of msgt) cur in
         if has_ps then st := s';
+        (match !node with
+         | Some nd when o = Accepted ->
+           (match node_deliver e.e_running has_ps (zi (int_of_string ("0x" ^ ch))) (wire_of msgt) (zi 0) nd with
+            | Ok nd' -> node := Some nd'
+            | _ -> node_bad := true)
+         | _ -> ());
         (* a peer that has already been stopped and removed cannot be stopped again: Rejected is
            not observable for it (StopPeerForError returns early) *)
         print_endline (if (not has_ps) && o = Rejected then "ACC" else str_outcome o)
@@ -158,6 +211,63 @@ let () =
             | _ -> print_endline "CRASH-POST")
          | NoPending -> print_endline "BADGI");
         pend := NoPending
+      | ["HI"] -> hvs := hvs_new
+      | ["HA"; t; r; peer] ->
+        (match hvs_add_vote !hvs (z t) (z r) (z peer) with
+         | Ok (h', cls) -> hvs := h'; print_endline (str_hvclass cls ^ " R=" ^ str_rounds h'.hv_rounds)
+         | RCrash -> print_endline "CRASH"
+         | RAlloc _ -> print_endline "ALLOC")
+      | ["HR"; r] ->
+        (match hvs_set_round !hvs (z r) with
+         | Ok h' -> hvs := h'; print_endline ("OK R=" ^ str_rounds h'.hv_rounds)
+         | RCrash -> print_endline "CRASH"
+         | RAlloc _ -> print_endline "ALLOC")
+      | ["HINIT"; h; hr; rs] ->
+        let rounds = ints_of_tok (String.sub rs 2 (String.length rs - 2)) in
+        node_bad := false;
+        node := Some { nh_height = z h; nh_hvs = { hv_round = z hr; hv_rounds = rounds; hv_catchup = [] } }
+      | ["NOBS"; h; hr] ->
+        (match !node with
+         | Some nd ->
+           (match node_observe nd (z h) (z hr) with
+            | Ok nd' -> node := Some nd'
+            | _ -> node_bad := true)
+         | None -> ())
+      | ["HS"] ->
+        (match !node with
+         | Some nd -> print_endline (if !node_bad then "CRASH" else "R=" ^ str_rounds nd.nh_hvs.hv_rounds)
+         | None -> print_endline "nonode")
+      | "N" :: "FIRE" :: _ -> print_endline "OK"
+      | ["N"; "VOTES"; t; r; n] ->
+        (match !node with
+         | Some nd ->
+           let cur = ref nd in
+           for _ = 1 to int_of_string n do
+             (match node_vote !cur (z t) (!cur).nh_height (z r) (zi 1) with
+              | Ok nd' -> cur := nd'
+              | _ -> node_bad := true)
+           done;
+           node := Some !cur;
+           print_endline (if !node_bad then "CRASH-CS" else "OK")
+         | None -> print_endline "OK")
+      | "TS" :: _ -> print_endline "OK"   (* real-time sequence on the reactor: direct oracles only *)
+      | ["FI"] -> fet := f0; fet_dead := false
+      | ["FK"; h] -> fet := w_known (zs_add (z h) (!fet).f_known) !fet
+      | "FN" :: _ | "FE" :: _ | "FD" :: _ | "FT" :: _ ->
+        let ev, k = match toks with
+          | ["FN"; k; p; hs] -> ENotify (z p, ints_of_tok hs), z k
+          | ["FE"; k; p; d; l] ->
+            let txs = if l = "-" then [] else
+                List.map (fun t -> match String.split_on_char ':' t with
+                    | [a; b] -> (z a, z b) | _ -> failwith ("bad tx verdict " ^ t)) (String.split_on_char ',' l) in
+            EEnqueue (z p, txs, d = "1"), z k
+          | ["FD"; k; p] -> EDrop (z p), z k
+          | ["FT"; k; d] -> EAdvance (z d), z k
+          | l -> failwith ("bad fetcher line: " ^ String.concat " " l) in
+        if !fet_dead then print_endline "DEAD"
+        else (match fstep k !fet ev with
+            | FOk s' -> fet := s'; print_endline (str_fetcher s' ^ (if fetcher_ok s' then "" else " INCONSISTENT"))
+            | FCrash -> fet_dead := true; print_endline "CRASH")
       | "B" :: rest ->
         let (_, m) = split_at_sep [] rest in
         let (msg, conv) = match m with
@@ -191,8 +301,11 @@ let () =
         let msg = match m with
           | ["RAW"] -> PRaw
           | ["REQ"] -> PReq
-          | ["ADDRS"; n; bad; sol] ->
-            PAddrs (z n, z (String.sub bad 4 (String.length bad - 4)), sol = "sol=1")
+          | ["ADDRS"; _; sol; lst] ->
+            let addrs = if lst = "-" then [] else
+                List.map (fun t -> match String.split_on_char ':' t with
+                    | [a; b] -> (a = "1", z b) | _ -> failwith ("bad address " ^ t)) (String.split_on_char ',' lst) in
+            PAddrs (addrs, sol = "sol=1")
           | l -> failwith ("bad pex line: " ^ String.concat " " l) in
         print_endline (str_shallow (pex_receive msg))
       | "F" :: rest ->
